@@ -89,6 +89,7 @@ func init() {
 	registry["C06"] = func() Check {
 		return &SeqCheck{Prop: "C06",
 			Ideal: famState(5), IdealProps: []string{"P_C06", "P_C10"}, IdealInvs: []string{"CodeReadyIsSpecReady"},
+			Proc: &ProcCheck{Prop: "C06", Scenarios: "StateScenarios", IdealInvs: []string{"Serializable"}, Only: []string{"C06_serial", "C06_final"}},
 			GenQuick: famState(3), GenThorough: famState(5), SampleQuick: 150,
 			Sim: with(famState(12), func(m *SeqModel) { m.MaxTasks = 3 }), SimNumQuick: 60, SimNumThorough: 2000}
 	}
@@ -96,7 +97,8 @@ func init() {
 		return &SeqCheck{Prop: "C07",
 			Ideal: famGraph(3, 2, 5), IdealDeep: famGraph(3, 2, 7), IdealProps: []string{"P_C07"},
 			Proc: &ProcCheck{Prop: "C07", Scenarios: "SeqScenarios", IdealInvs: []string{"Serializable"}, Only: []string{"C07_final"}},
-			GenQuick: famGraph(3, 1, 4), GenThorough: famGraph(3, 2, 6), SampleQuick: 120,
+			GenQuick: famGraph(3, 1, 4), GenThorough: famGraph(3, 2, 6), SampleQuick: 300, Probes: probeEdges,
+			CraftQuick: famCraft(600, "prune", "compact"), CraftThorough: famCraft(20000, "prune", "compact"),
 			Sim: with(famGraph(4, 2, 14), func(m *SeqModel) { m.Extras = append(m.Extras, "chains", "badid") }), SimNumQuick: 60, SimNumThorough: 2000}
 	}
 	registry["C08"] = func() Check {
@@ -132,11 +134,13 @@ func init() {
 			Ideal: famIds(2, 2, 4), IdealDeep: famIds(3, 2, 6), IdealProps: []string{"P_C14"}, Probes: probeEpicRef,
 			Proc: &ProcCheck{Prop: "C14", Scenarios: "PruneScenarios", IdealInvs: []string{"Serializable"}, Only: []string{"C14_final"}},
 			GenQuick: famIds(2, 1, 4), GenThorough: famIds(2, 2, 6), SampleQuick: 100,
+			CraftQuick: famCraft(800, "prune", "compact"), CraftThorough: famCraft(30000, "prune", "compact"),
 			Sim: famIds(3, 2, 12), SimNumQuick: 60, SimNumThorough: 2000}
 	}
 	registry["C15"] = func() Check {
 		return &SeqCheck{Prop: "C15",
 			Ideal: famGraph(3, 2, 5), IdealDeep: famGraph(3, 2, 7), IdealProps: []string{"P_C15"}, IdealInvs: []string{"CodeWaitsIsSpecWaits"}, Probes: probeD10,
+			Proc: &ProcCheck{Prop: "C15", Scenarios: "SeqScenarios", IdealInvs: []string{"Serializable"}, Only: []string{"C15_final"}},
 			GenQuick: famGraph(2, 2, 5), GenThorough: famGraph(3, 2, 7), SampleQuick: 150,
 			Sim: with(famGraph(4, 2, 14), func(m *SeqModel) { m.CmdNames = append(m.CmdNames, "claim") }), SimNumQuick: 60, SimNumThorough: 2000}
 	}
